@@ -5,7 +5,7 @@ use crate::models::*;
 use cgt_money::FxCache;
 use chrono::NaiveDate;
 use rust_decimal::Decimal;
-use std::collections::HashMap;
+use std::collections::{BTreeMap, HashMap};
 
 /// Calculate CGT report.
 ///
@@ -137,7 +137,7 @@ fn build_all_tax_year_summaries(
     config: &Config,
 ) -> Result<Vec<TaxYearSummary>, CgtError> {
     // Group matches by tax year
-    let mut matches_by_year: HashMap<u16, Vec<MatchResult>> = HashMap::new();
+    let mut matches_by_year: BTreeMap<u16, Vec<MatchResult>> = BTreeMap::new();
 
     for m in match_results {
         let tax_period = TaxPeriod::from_date(m.disposal_date)?;
